@@ -47,7 +47,8 @@ def case(draw):
         ch0 = desc["chains"][0]
         if len(ch0["seq"]) >= 2:
             ch0["stretch"] = [[draw(st.integers(0, 5)), draw(st.sampled_from([1.5, 1.9, 2.2, 2.4, 2.9]))]]
-    return dict(part="e2e", desc=desc, ff=draw(st.sampled_from(strat.FFS)), opts=list(mode), wild=wild)
+    ff = draw(st.sampled_from(strat.FFS))
+    return dict(part="e2e", desc=desc, ff=ff, opts=list(mode) + e2e.neutral_opts(draw, ff, mode), wild=wild)
 
 
 WAT = topo.RES["WAT"]["atoms"] if "WAT" in topo.RES else None
@@ -60,7 +61,7 @@ def check(case):
     del c04.CALLS[:]
     s, r = e2e.run_case(desc, ff, opts)
     ncalls = len(c04.CALLS)
-    mode = " ".join(opts) or "default"
+    mode = " ".join(o for o in opts if not o.startswith("--neutral")) or "default"
     res.label(f"mode={mode}", "wild" if case.get("wild") else "wells")
     if not r.ok:
         res.label("run-failed")
